@@ -275,6 +275,37 @@ fn check_tape(tape: &[u8], gates: &Gates, stats: &mut Stats, counting: bool, cli
             (text, "semantic", Some(kind.code()), sn)
         }
     };
+    // a comment header in front of the faulty file: description markers of the OSCAT library
+    // convention (complete, reversed, opened and never closed, opened again after a complete
+    // block), comment-like text inside comments.  A comment declares nothing and cures nothing
+    let ftext = if choice.ratio(1, 4) && gates.want("COMMENT_HEADER_BEFORE_FAULTY_FILE") {
+        const HEADERS: &[&str] = &[
+            "(*@KEY@:DESCRIPTION*)\n",
+            "(*@KEY@:END_DESCRIPTION*)\n",
+            "(*@KEY@:DESCRIPTION*)\nversion 1.0, some text ; END_VAR\n(*@KEY@:END_DESCRIPTION*)\n",
+            "(*@KEY@:END_DESCRIPTION*)\n(*@KEY@:DESCRIPTION*)\n",
+            "(*@KEY@:DESCRIPTION*)\nv1\n(*@KEY@:END_DESCRIPTION*)\n(*@KEY@:DESCRIPTION*)\n",
+            "(*@KEY@:DESCRIPTION*)(*@KEY@:DESCRIPTION*)\n(*@KEY@:END_DESCRIPTION*)\n",
+            "(* (* looks nested *)\n",
+            "(* { *)\n",
+            "(* } *) (* ' *) (* \" *)\n",
+            "(**)\n",
+            "(* header *)",
+        ];
+        let h = *choice.pick(HEADERS);
+        if counting {
+            stats.class("faulty-file.comment-header");
+        }
+        // (behind the file only when the planted junk is not an unclosed comment, which the
+        // header's `*)` would close)
+        if choice.ratio(1, 5) && !ftext.contains("(* never closed") {
+            format!("{}{}", ftext, h)
+        } else {
+            format!("{}{}", h, ftext)
+        }
+    } else {
+        ftext
+    };
     // F alone must fail (otherwise the case is not a C03 case)
     let alone = project_verdict(&[ftext.clone()]).map_err(|(k, d)| Failure::new("alone", &k, d, json!({"files": [ftext]})))?;
     if alone.0 {
